@@ -62,9 +62,12 @@ package expr
 //@   ensures[C17:writes-stay-below-the-enclosing-path] forall k string :: !under(key, k) ==> has(l.Result, k) == old(has(l.Result, k)) && l.Result[k] == old(l.Result[k])
 //@   ensures[C17:string-value-unquoted] strTok(ctx) != nil ==> has(l.Result, fieldKeyOf(key, ctx)) && isTokenValue(antlr.TerminalNode.GetText(strTok(ctx)), l.Result[fieldKeyOf(key, ctx)])
 
+//@ spec fun typeKeyOf(key string) string = key == "" ? "type" : key + ".type"
+
 //@ func (*expr.ParseTreeListener).parseExpr
 //@   may_panic
 //@   requires l != nil && l.Result != nil
 //@   modifies map(l.Result)
+//@   ensures[C17:later-assignment-wins-for-the-type-entry] IExprContext.InnerExprList(ctx) == nil ==> has(l.Result, typeKeyOf(key)) && l.Result[typeKeyOf(key)] == antlr.TerminalNode.GetText(IExprContext.IDENT(ctx))
 //@   ensures[C17:writes-stay-below-the-enclosing-path] forall k string :: !under(key, k) ==> has(l.Result, k) == old(has(l.Result, k)) && l.Result[k] == old(l.Result[k])
 //@   loop 1 invariant[C17:prefix-discipline] forall k string :: !under(key, k) ==> has(l.Result, k) == old(has(l.Result, k)) && l.Result[k] == old(l.Result[k])
